@@ -474,6 +474,21 @@ macro_rules! runner {
                 let y = &s.y.0 % &f.m;
                 let want = model_step(f, &macc, s);
                 if let MOut::Excluded = want {
+                    // division by zero has no result: the documented behaviour is a panic (inverse().unwrap());
+                    // any value handed back instead -- whatever the dividend -- is a wrong result
+                    ctx.class(&format!("{tag}:division-by-zero"));
+                    let (lx, ly) = (conv(&x), conv(&y));
+                    let k = (s.n % 4) as usize;
+                    let form = s.form;
+                    let acc0 = acc;
+                    let r = std::panic::catch_unwind(std::panic::AssertUnwindSafe(|| {
+                        let out: Option<Out<$T>> = common_forms!($T, form, acc0, lx, ly, k);
+                        matches!(out, Some(Out::Val(_)))
+                    }));
+                    if let Ok(true) = r {
+                        ctx.report(format!("C10|{tag}:{}|division-by-zero-returns-a-value", s.form.name()), format!("step {i} ({:?}) on acc={macc:x}: dividing by zero returned a value instead of panicking", s.form))?;
+                        return Ok(());
+                    }
                     ctx.excluded();
                     continue;
                 }
@@ -624,7 +639,15 @@ pub fn step(forms: Vec<FForm>, m: N) -> impl Strategy<Value = Step> {
     let n = forms.len();
     let rel = prop_oneof![10 => Just(0u8), 1 => Just(1u8), 1 => Just(2u8), 2 => Just(3u8), 1 => Just(4u8)];
     let rv = prop_oneof![Just(1u64), Just(u64::MAX), Just(1u64 << 63), Just(1u64 << 32), Just(0xffff_ffffu64), (1u64..0x1000_0000).prop_map(|k| k << 32), any::<u64>()];
-    (any::<u16>(), gen::fe(&m), gen::fe(&m), exp_limbs(), any::<u8>(), any::<bool>(), rel, any::<u16>(), rv)
+    let mm1 = &m - 1u32;
+    let order_exps = (1u32..4, 0usize..4, prop_oneof![Just(0u32), Just(1u32), Just(2u32)]).prop_map(move |(k, pad, off)| {
+        // k * (m - 1) + {0, 1, 2}: Fermat exponents (x^(m-1) = 1 for x != 0, but 0^(m-1) = 0), zero-padded
+        let mut l = (&mm1 * k + off).to_u64_digits();
+        l.extend(std::iter::repeat(0).take(pad));
+        l
+    });
+    let exps = prop_oneof![8 => exp_limbs(), 1 => order_exps];
+    (any::<u16>(), gen::fe(&m), gen::fe(&m), exps, any::<u8>(), any::<bool>(), rel, any::<u16>(), rv)
         .prop_map(move |(i, x, y, limbs, n_items, flag, rel, rk, rv)| Step { form: forms[pick(i, n)], x, y, limbs, n: n_items, flag, rel, rk, rv })
 }
 
@@ -758,6 +781,16 @@ impl Property for C10 {
                 }
                 // small exponents FIRST: a linear-time `power` must be exposed before any large limb is tried
                 let exps: Vec<Vec<u64>> = vec![vec![], vec![0], vec![1], vec![2], vec![3, 0], vec![0, 1], vec![5, 1], vec![2, 0, 0, 1], vec![0, 0, 0, 0], vec![1, 1, 1, 1], vec![0, 0, 0, 0, 1], vec![1, 0, 0, 0, 0, 0, 0, 2], vec![3, 0, 0, 0, 0, 0]];
+                let mm1 = m - 1u32;
+                let mut exps = exps;
+                for e in [mm1.clone(), &mm1 << 64, &mm1 * 2u32, &mm1 * 3u32 << 128, m.clone(), m - 2u32, (&mm1 >> 1), &mm1 << 200] {
+                    let mut l = e.to_u64_digits();
+                    exps.push(l.clone());
+                    l.push(0);
+                    exps.push(l.clone());
+                    l.extend([0, 0, 0]);
+                    exps.push(l);
+                }
                 for form in forms_for(bk, f) {
                     for (a, b) in &pairs {
                         if matches!(form, FForm::FPow | FForm::Power) {
